@@ -337,6 +337,17 @@ def _run_geom(case):
         if np.abs(cen - exc).max() > 1e-11 * sc:
             v.append(viol("centroid", f"{zm2.name}: mesh.center = {cen}, exact {exc}", **key))
     fps = [got]
+    # integrands that return PLAIN arrays of shape (Ne, nPg) (np.asarray(x), np.full(x.shape, c), a third-party routine): same integrals
+    if "measure" in zm2.exact:
+        plain2 = sum(float(np.sum(np.asarray(g.Integrate_e(lambda x, y, z: np.full(np.shape(x), 2.0)), dtype=float))) for g in mesh.Get_list_groupElem(d))
+        fe_x = sum(float(np.sum(np.asarray(g.Integrate_e(lambda x, y, z: x), dtype=float))) for g in mesh.Get_list_groupElem(d))
+        plain_x = sum(float(np.sum(np.asarray(g.Integrate_e(lambda x, y, z: np.array(np.asarray(x), dtype=float)), dtype=float))) for g in mesh.Get_list_groupElem(d))
+        nent += 3
+        exm = zm2.exact["measure"]
+        if abs(plain2 - 2.0 * exm) > 1e-11 * 2.0 * exm:
+            v.append(viol("plain_integrand", f"{zm2.name}: the integral of a plain (Ne, nPg) array of 2.0 is {plain2!r}, 2 x measure = {2.0 * exm!r}", **key))
+        if abs(plain_x - fe_x) > 1e-11 * max(abs(fe_x), exm * max(1.0, float(np.abs(zm2.coords).max()))):
+            v.append(viol("plain_integrand", f"{zm2.name}: integral of x given as a plain array {plain_x!r}, given as the finite element array {fe_x!r}", **key))
     # boundary groups (dimension d-1, embedded in dimension d) of affinely mapped templates: their total measure against the sum of the
     # straight segment lengths / flat face areas computed from the vertices
     if not dist and d >= 2 and zm2.boundary:
